@@ -156,6 +156,8 @@ theorem rep2_phaseDag : Rep2 Mat.phaseDag phaseDagM :=
   rep2_m2 _ _ _ _ _ (by simp [phaseDagM]) (by simp [phaseDagM]) (by simp [phaseDagM]) (by rw [gqC_neg_I]; simp [phaseDagM])
 theorem rep2_had2 : Rep2 Mat.had2 hadM :=
   rep2_m2 _ _ _ _ _ (by simp [hadM]) (by simp [hadM]) (by simp [hadM]) (by rw [gqC_neg_one]; simp [hadM])
+theorem rep2_id2 : Rep2 Mat.id2 (1 : Matrix Bool Bool ℂ) :=
+  rep2_m2 _ _ _ _ _ (by simp) (by simp) (by simp) (by simp)
 theorem rep2_ketbra00 : Rep2 (Mat.m2 1 0 0 0) (ketbra false false) :=
   rep2_m2 _ _ _ _ _ (by simp [ketbra]) (by simp [ketbra]) (by simp [ketbra]) (by simp [ketbra])
 theorem rep2_ketbra01 : Rep2 (Mat.m2 0 1 0 0) (ketbra false true) :=
@@ -168,6 +170,22 @@ theorem b2n_inj (x y : Bool) : b2n x = b2n y ↔ x = y := by cases x <;> cases y
 theorem b2n_eq_zero (x : Bool) : b2n x = 0 ↔ x = false := by cases x <;> simp [b2n]
 
 /-! ### the gate builders -/
+
+/-- `kron(kron(I_{2^q}, g), I_{2^(n-q-1)})` represents `oneQ n q u` -/
+theorem rep_embed1 (n q : Nat) (hq : q < n) (g : Mat) (u : Matrix Bool Bool ℂ) (hg : Rep2 g u) :
+    Rep n (DM.embed1 (DM.pow2 q) (DM.pow2 (n - q - 1)) g) (oneQ n q u) := by
+  refine ⟨pow2_split' n q hq, fun a b => ?_⟩
+  show gqC (if _ then _ else _) = _
+  rw [oneQ_apply]
+  have hiff := idx_off_site_iff n a b q hq
+  unfold DM.pow2
+  by_cases hoff : ∀ j : Fin n, j.val ≠ q → a j = b j
+  · rw [if_pos (hiff.mpr hoff), if_pos hoff]
+    have da := b2n_digit n a q hq
+    have db := b2n_digit n b q hq
+    unfold DM.pow2 at da db
+    rw [da, db, hg.2]
+  · rw [if_neg (fun h => hoff (hiff.mp h)), if_neg hoff]; simp
 
 /-- **`get_one_qubit_gate`**: the executable Kronecker embedding represents `oneQ n q u` -/
 theorem rep_getOneQubitGate (n q : Nat) (hq : q < n) (g : Mat) (u : Matrix Bool Bool ℂ) (hg : Rep2 g u) :
@@ -190,18 +208,7 @@ theorem rep_getOneQubitGate (n q : Nat) (hq : q < n) (g : Mat) (u : Matrix Bool 
     intro j hj
     exfalso; apply hj; have := j.isLt; omega
   · rw [if_neg h1]
-    refine ⟨pow2_split' n q hq, fun a b => ?_⟩
-    show gqC (if _ then _ else _) = _
-    rw [oneQ_apply]
-    have hiff := idx_off_site_iff n a b q hq
-    unfold DM.pow2
-    by_cases hoff : ∀ j : Fin n, j.val ≠ q → a j = b j
-    · rw [if_pos (hiff.mpr hoff), if_pos hoff]
-      have da := b2n_digit n a q hq
-      have db := b2n_digit n b q hq
-      unfold DM.pow2 at da db
-      rw [da, db, hg.2]
-    · rw [if_neg (fun h => hoff (hiff.mp h)), if_neg hoff]; simp
+    exact rep_embed1 n q hq g u hg
 
 /-- **`projectors_zbasis`** -/
 theorem rep_projectorsZ (n q : Nat) (hq : q < n) :
